@@ -10,11 +10,16 @@ Section WithH.
 Variable H160 : bytes -> bytes.
 
 (* =========================== raw locking script -> type and address =========================== *)
-Lemma lib_out_script_eq fx net s : s <> [] ->
+Lemma lib_out_script_eq fx net s : s <> [] -> fx_tb fx s = s ->
   lib_out_script H160 fx net s =
   lib_output_k H160 fx {| a_addr := AaNone; a_hash := []; a_pubkey := []; a_lock := s; a_stype := None;
                           a_witver := 0; a_enc := None; a_net := net |} (lib_script_parse s).
-Proof. destruct s; [congruence|reflexivity]. Qed.
+Proof.
+  intros Hne Htb. unfold lib_out_script.
+  rewrite lib_output_eq; [ | reflexivity | apply tb_of; exact Htb | reflexivity | exact I
+                           | cbn [a_addr a_hash a_pubkey a_lock]; destruct s; [congruence|reflexivity] ].
+  cbn [a_lock]. destruct s; [congruence|reflexivity].
+Qed.
 
 Definition std_cmds (d : dest) : list cmd :=
   match d_stype d with
@@ -93,13 +98,15 @@ Qed.
 
 Lemma lib_inverse_script fx net d :
   In net all_networks -> standard d = true ->
+  fx_tb fx (d_payload d) = d_payload d -> fx_tb fx (spec_lock_script d) = spec_lock_script d -> pfx_ok fx net ->
   out_is (lib_out_script H160 fx net (spec_lock_script d))
          (spec_lock_script d) (stype_name (d_stype d)) (nw_name net) (OaIs (spec_address net d)).
 Proof.
-  intros Hn Hstd.
-  rewrite lib_out_script_eq by (destruct d as [[] w p]; discriminate).
-  rewrite (script_parse_std d Hstd).
-  std_shapes d Hstd; (each_net Hn; out_ok).
+  intros Hn Hstd Htb Htbs Hp.
+  rewrite lib_out_script_eq; [ | destruct d as [[] w p]; discriminate | exact Htbs ].
+  rewrite (script_parse_std d Hstd). clear Htbs.
+  destruct fx as [fw fn fp tb0]. cbn [fx_tb] in Htb.
+  std_shapes d Hstd; cbn [d_payload] in Htb; (each_net Hn; out_k Htb Hp).
 Qed.
 
 End WithH.
